@@ -11,6 +11,8 @@ SETZ        SetZ's own table: an intersection point equal to an end point of the
             edges takes that end point's z (subject edge first), otherwise DefaultZ, and
             the callback receives the subject edge before the clip edge.
 """
+import re
+
 from ..astq import walk, kids, strip, qt, dqt, where, canon, if_parts
 from ..flow import Walker, Client
 from ..evalx import Interp, Unsupported
@@ -404,4 +406,58 @@ def rule_out_point_fresh(db, chk, cfg, rule="Z.out-point-fresh"):
                                   "USINGZ build a new vertex then carries the z left in `%s` by an earlier iteration (e.g. the z of an input vertex "
                                   "copied by a whole-point assignment) instead of the default"
                                   % (canon(c)[:70], g.name, canon(a0), where(bad), canon(a0)), where(c), cfg=cfg)
+    return n
+
+
+# ---------------------------------------------------------------------------
+# Z.carry: a point made from another point's x and y takes its z along
+# ---------------------------------------------------------------------------
+
+def rule_z_carry(db, chk, cfg, rule="Z.carry"):
+    """[USINGZ] A vertex built from the x and the y of one source vertex S (`Point(f(S.x), g(S.y))`, `emplace_back(S.x * s, S.y * s)`) is S
+    moved, scaled or converted - its z is S's z.  Every construction of a point from two coordinate arguments that read S.x resp. S.y
+    of the same S must have a third argument (reading S.z); the two-argument form silently sets z = 0."""
+    n = 0
+
+    def sources(e, axis):
+        out = set()
+        for y in walk(e):
+            if y.get("kind") == "MemberExpr" and y.get("name") == axis and kids(y):
+                b = _u(kids(y)[0])
+                t = dqt(b) or ""
+                if "Point<" in t:
+                    out.add(canon(b))
+        return out
+
+    # the conversion layer: the functions through which every input vertex enters the integer engine and every solution vertex leaves
+    # it (scaling, building the solution paths, the polytree nodes, the C export converters).  Vector arithmetic elsewhere (normals,
+    # offsets, TranslatePath ...) makes new points on purpose and is not concerned.
+    LAYER = re.compile(r'^(ScalePath|ScalePaths|ScaleRect|BuildPath64|BuildPathD|TransformPath|TransformPaths|PathDToPath64|Path64ToPathD|Paths64ToPathsD|PathsDToPaths64)$')
+    for f in db.funcs:
+        if f.is_pattern or f.body is None or not f.file or not ("/clipper2/" in f.file or "/Clipper2Lib/src/" in f.file):
+            continue
+        if not (LAYER.match(f.name or "") or f.cls in ("PolyPath64", "PolyPathD") or f.file.endswith("clipper.export.h")):
+            continue
+        for c in walk(f.body):
+            k = c.get("kind")
+            args = None
+            if k in ("CXXConstructExpr", "CXXTemporaryObjectExpr") and "Point<" in (dqt(c) or ""):
+                args = [a for a in kids(c) if isinstance(a, dict) and a.get("kind") and a.get("kind") != "CXXDefaultArgExpr"]
+            elif k == "CXXMemberCallExpr" and db.callee(c)[0] in ("emplace_back",):
+                mb = db.member_base(c)
+                if mb is not None and "Point<" in (dqt(_u(mb)) or ""):
+                    args = [a for a in db.call_args(c) if a.get("kind") != "CXXDefaultArgExpr"]
+            if args is None or len(args) < 2:
+                continue
+            sx, sy = sources(args[0], "x"), sources(args[1], "y")
+            same = sx & sy
+            if not same:
+                continue
+            n += 1
+            ok = len(args) >= 3
+            chk.instance(rule, {"function": f.qual, "construction": canon(c)[:70], "source": sorted(same)[0], "cfg": cfg} if (not ok or n % 6 == 1) else None, ok=ok)
+            if not ok:
+                chk.violation(rule, f.qual, "%s|%s" % (sorted(same)[0][:30], c.get("line")),
+                              "`%s` builds a vertex from the x and y of `%s` without a z argument: in the USINGZ build the new vertex gets z = 0 instead of "
+                              "the z of the vertex it was made from" % (canon(c)[:80], sorted(same)[0]), where(c), cfg=cfg)
     return n
